@@ -1,27 +1,30 @@
 #!/bin/bash
-# seedcheck.sh <PROP> <N> [demo-package-dir]
+# seedcheck.sh <PROP> <N> [demo-package-dir]   (env SEEDOUT: deliverables root, default /tmp/seeded_out)
 # Confirms a sub-agent's seeded change in its scratch worktree (compiles, suite passes, demo fails with / passes without),
-# then runs the property's quick check against it in /repo and reverts.
+# then runs the property's quick check against the patched worktree (VERIF_REPO) and restores it. /repo is never touched here;
+# `selftest.py mutants` later applies every kept patch to /repo itself.
 set -u
 P=$1; N=$2; PKG=${3:-.}
-WT=/tmp/wt/$P; OUT=/tmp/seeded_out/$P
+ROOTOUT=${SEEDOUT:-/tmp/seeded_out}
+WT=/tmp/wt/$P; OUT=$ROOTOUT/$P
 export GOFLAGS=-mod=mod GOPROXY=off GOSUMDB=off
 cd $WT || exit 9
 git checkout -q -- . ; git clean -fdq
 git apply $OUT/patch$N.diff || { echo "APPLY-FAILED"; exit 9; }
 go build ./... && go build -tags verif ./... || { echo "BUILD-FAILED"; git checkout -q -- .; exit 9; }
 SUITE=$(go test -vet=off -count=1 ./... 2>&1 | grep -v "no test files" | grep -v "^ok" | head -5)
-if [ -n "$SUITE" ]; then echo "SUITE-FIRST-TRY: $SUITE"; SUITE=$(go test -vet=off -count=1 ./... 2>&1 | grep -v "no test files" | grep -v "^ok" | head -5); fi
+if [ -n "$SUITE" ]; then SUITE=$(go test -vet=off -count=1 ./... 2>&1 | grep -v "no test files" | grep -v "^ok" | head -5); fi
+if [ -n "$SUITE" ]; then SUITE=$(go test -vet=off -count=1 ./... 2>&1 | grep -v "no test files" | grep -v "^ok" | head -5); fi
 echo "suite-with-change: ${SUITE:-PASS}"
 cp $OUT/demo${N}_test.go $WT/$PKG/zz_demo${N}_test.go
 RACE=""; grep -qi "race" $OUT/notes$N.md 2>/dev/null && RACE="-race"
-( cd $WT/$PKG && go test $RACE -vet=off -count=1 -run "$(grep -o 'func Test[A-Za-z0-9_]*' zz_demo${N}_test.go | sed 's/func //' | paste -sd'|')" . > /tmp/seeded_out/$P/demo$N.with.log 2>&1 ); echo "demo-with-change exit=$? (want !=0)"
-git checkout -q -- .
-( cd $WT/$PKG && go test $RACE -vet=off -count=1 -run "$(grep -o 'func Test[A-Za-z0-9_]*' zz_demo${N}_test.go | sed 's/func //' | paste -sd'|')" . > /tmp/seeded_out/$P/demo$N.without.log 2>&1 ); echo "demo-without-change exit=$? (want 0)"
+TESTS="$(grep -o 'func Test[A-Za-z0-9_]*' $WT/$PKG/zz_demo${N}_test.go | sed 's/func //' | paste -sd'|')"
+( cd $WT/$PKG && go test $RACE -vet=off -count=1 -run "$TESTS" . > $OUT/demo$N.with.log 2>&1 ); echo "demo-with-change exit=$? (want !=0)"
+rm -f $WT/$PKG/zz_demo${N}_test.go
+# the check, against the patched worktree
+( cd /verif && VERIF_REPO=$WT ./check $P quick > $OUT/check$N.log 2>&1; echo "check exit=$? $(grep -h '^violation:\|^VIOLATION' $OUT/check$N.log | cut -c1-300 | head -3)" )
+git checkout -q -- . ; git clean -fdq
+cp $OUT/demo${N}_test.go $WT/$PKG/zz_demo${N}_test.go
+( cd $WT/$PKG && go test $RACE -vet=off -count=1 -run "$TESTS" . > $OUT/demo$N.without.log 2>&1 ); echo "demo-without-change exit=$? (want 0)"
 rm -f $WT/$PKG/zz_demo${N}_test.go
 git checkout -q -- . ; git clean -fdq
-# now the check
-cd /repo && [ -z "$(git status --porcelain)" ] || { echo "/repo dirty"; exit 9; }
-git apply $OUT/patch$N.diff
-cd /verif && ./check $P quick > /tmp/seeded_out/$P/check$N.log 2>&1; echo "check exit=$? $(grep -h '^violation:\|^VIOLATION' /tmp/seeded_out/$P/check$N.log | cut -c1-300 | head -3)"
-git -C /repo checkout -q -- . ; git -C /repo clean -fdq
